@@ -187,7 +187,12 @@ fn read_container(file: &[u8], entry: &str, schema_text: &str, log: &mut CaseLog
     for deser in [false, true] {
         log.sub_evals += 1;
         let budget = 8 * file.len() as u64 + limit() as u64 + 4096;
-        dynserde::reset_work(budget);
+        // the number of OBJECTS is bounded by the budget; each object is a tree of at most as many
+        // elements as its schema has nodes (the schema is part of the file): visited elements are
+        // bounded by objects x schema nodes
+        let nodes = if schema_text.starts_with("(from") { 64 } else { 1 + schema_text.matches('{').count() as u64 + schema_text.matches('"').count() as u64 / 2 };
+        let element_budget = budget.saturating_mul(nodes);
+        dynserde::reset_work(element_budget);
         let (r, u) = measure(|| {
             guard(|| {
                 let reader = Reader::new(file).map_err(|e| format!("{e}"))?;
@@ -213,8 +218,8 @@ fn read_container(file: &[u8], entry: &str, schema_text: &str, log: &mut CaseLog
         });
         let name = if deser { "container/into_deser_iter" } else { "container/reader" };
         let r = r.map_err(|p| Fail::new(format!("C05/panic/{name}/{}", p.key_loc()), format!("{name} panicked at {}: {}", p.short_loc(), p.msg)).with(idetail(schema_text, file, name, vec![])))?;
-        if dynserde::work() > budget {
-            return Err(Fail::new(format!("C05/unbounded-work/{name}"), format!("more than {budget} elements visited for a {}-byte file", file.len())).with(idetail(schema_text, file, name, vec![])));
+        if dynserde::work() > element_budget {
+            return Err(Fail::new(format!("C05/unbounded-work/{name}"), format!("more than {element_budget} elements visited for a {}-byte file", file.len())).with(idetail(schema_text, file, name, vec![])));
         }
         if let Ok(n) = r {
             if n as u64 > budget {
